@@ -1,8 +1,9 @@
-HOOK_COMMITS = []
+HOOK_COMMITS = ["3a5194c", "1c65365", "5e0ddb3"]
 NOTES = "All checks: bounded exhaustive exploration driving the real mscript CLI built from /repo's working tree (dev profile, --cfg mscript_verif). Exit 0 = held, 1 = VIOLATION lines, 2 = machinery problem. Known findings: /verif/known_findings.json."
 NOT_CLAIMED = {}
+SERVED = []
 ENGINES = [
- {"name": "mcheck", "path": "/verif/mcheck", "serves_properties": ["C20"], "kind_free_text": "Python explicit-state / bounded-exhaustive explorer over the real CLI (layers, dedup, replay, known findings)"},
+ {"name": "mcheck", "path": "/verif/mcheck", "serves_properties": SERVED, "kind_free_text": "Python explicit-state / bounded-exhaustive explorer over the real CLI (layers, dedup, replay, known findings)"},
 ]
 CHECKS["C20"] = dict(
  category="exploration",
@@ -10,3 +11,10 @@ CHECKS["C20"] = dict(
  text="Every directory tree with <=3 (quick) / <=4 (thorough) top-level entries from an 11-name alphabet x 5 entry kinds, plus all-names trees and 4 invocation forms, is built on tmpfs, `mscript clean` is run on it and the complete before/after snapshot is compared: only top-level non-directory entries with extension mmm may disappear, nothing else may change; on exit 0 all of them are gone and the reported count is exact.",
  note="Linux tmpfs semantics only; names outside the 11-name alphabet and trees with more than 4 freely chosen top-level entries (beyond the 8/11-entry rotating trees) are not explored.",
  design_ref="DESIGN.md section 4, C20")
+
+CHECKS["C19"] = dict(
+ category="exploration",
+ technique="bounded exhaustive enumeration of argument vectors x return forms x faults (every cell executed: hand-assembled bytecode calling a probe dylib through the real interpreter)",
+ text="All argument vectors of length 0..4 (quick) / 0..6 (thorough) over int, bigint, float, byte, bool, str x probe functions echo (renders kinds+values it received, in order), last (returns its last argument: kind-preserving result push, checked with hook H2), nothing, fail (raise_error!), missing library, missing symbol, and two chained foreign calls. Oracle: exact rendering / value / sentinel line; for faults exit 1 with banner, message carried, sentinel never printed.",
+ note="Probe is a Rust dylib built against /repo/bytecode in the same target dir. Values owning GC memory are outside the alphabet; one or two values per kind.",
+ design_ref="DESIGN.md section 4, C19")
